@@ -10,6 +10,9 @@ guarantees `bk = false`.
 
 Imports only `DnsVerif.Prim`: the relation does not mention the decoder. -/
 
+def BytesAt (buf : Bytes) (off : Nat) (x : Bytes) : Prop :=
+  ∀ i, i < x.length → buf[off + i]? = x[i]?
+
 /-- RFC 1035 §4.1.4: a name is a sequence of labels (length octet 1..63, then that many octets)
 ended by the root octet `0` or by a two-octet pointer `11xxxxxx xxxxxxxx` to another name. -/
 inductive NameAt (buf : Bytes) (bk : Bool) : Nat → Name → Nat → Nat → Prop
